@@ -1,3 +1,4 @@
+import Gtree.Lemmas.EntryFacts
 import Gtree.Model.Programmable
 /-
   C13 — results depend only on the tree, not on call history.
@@ -81,4 +82,14 @@ theorem C13_repeat {α} (s : Store) (id : Option Nat) (run : T → α) (fail : E
     simp only [hv, hv']
     rw [C13_reset_keeps_trees]
 
+end Gtree
+
+namespace Gtree
+/-- Fact regenerated from the sources on this run: under both names of every entry point the configuration constructor is the expected one, so a stray encoding option cannot make an operation read what an earlier operation left in the nodes. -/
+theorem C13_facts_entry_points_configuration : Facts.entryConfig = expectedEntryConfig := entryConfig_as_expected
+
+/-- Fact regenerated from the sources on this run: every deprecated alias (`Output`, `Mkdir`, `Verify`, `Walk`,
+    `OutputProgrammably`, `MkdirProgrammably`, `VerifyProgrammably`, `WalkProgrammably`, `WalkIterProgrammably`) has, word for
+    word, the body of the function that replaces it. -/
+theorem C13_facts_aliases_identical : Facts.aliasBodiesEqual.all (fun e => e.2) = true := aliases_identical
 end Gtree
